@@ -350,3 +350,92 @@ Lemma flight_on_wire_example :
   | _ => False
   end.
 Proof. exact (conj ow_sb_ok (conj eq_refl ow_marshal)). Qed.
+
+(* ---------- planInitialFlight: accepted => complete, rejected => nothing sent ---------- *)
+Definition frame_in (hello : list Z) (ws : list wframe) : Prop := Forall (true_frame hello) (wcryptos ws) /\ wpads_ok ws.
+
+(** For EVERY plan of either in-tree flight builder — overlapping ranges, ranges addressed from the
+    end, randomised cuts —, every ClientHello, all budgets and both oracles:
+    if planInitialFlight accepts, the datagrams it will send ([flight_sent]) consist of frames that
+    lie inside the ClientHello and carry its bytes at absolute offsets, and the union of their
+    CRYPTO ranges is exactly [0, |hello|);  if it rejects (or the builder fails), nothing is sent. *)
+Lemma plan_flight_complete fb hello budgets bs us :
+  zlen hello <= 2 ^ 48 ->
+  match plan_flight fb hello budgets bs us with
+  | Ok (wss, _, _) =>
+    flight_sent fb hello budgets bs us = wss /\
+    Forall (frame_in hello) wss /\
+    (forall j, (exists ws o d, In ws wss /\ In (o, d) (wcryptos ws) /\ o <= j < o + zlen d) <-> 0 <= j < zlen hello)
+  | _ => flight_sent fb hello budgets bs us = []
+  end.
+Proof.
+  intros H48. unfold flight_sent. destruct (plan_flight fb hello budgets bs us) as [[[wss b1] u1]|c|] eqn:Ep; try reflexivity.
+  split; [reflexivity|]. unfold plan_flight in Ep. pose proof (zlen_nonneg hello) as Hh0.
+  destruct (Z.eqb_spec (zlen hello) 0) as [Hz|Hz].
+  { inversion Ep; subst. split; [constructor|]. intros j. split; [intros (ws & _ & _ & [] & _)|lia]. }
+  destruct (build_flight fb hello bs us) as [[[wss0 b0] u0]|c|] eqn:Eb; cbn [bind] in Ep; try discriminate.
+  destruct (Z.eqb_spec (validate (map encode wss0) budgets (zlen hello)) 0) as [Hv|Hv].
+  2: { destruct (_ =? -1); discriminate. }
+  inversion Ep; subst wss0 b0 u0.
+  assert (Htrue : Forall (frame_in hello) wss).
+  { unfold build_flight in Eb. destruct fb as [dgs|dgs].
+    - apply bind_ok in Eb as (w0 & Hf & Hr). inversion Hr; subst. eapply flight_frames_true; eassumption.
+    - eapply rff_build_true; eassumption. }
+  split; [assumption|]. intros j. split.
+  - intros (ws & o & d & Hws & Hod & Hr). rewrite Forall_forall in Htrue. destruct (Htrue ws Hws) as (Ht & _).
+    rewrite Forall_forall in Ht. destruct (Ht _ Hod) as (H0 & H1 & _). cbn [fst snd] in *. lia.
+  - intros Hj. destruct (validated_complete wss hello budgets H48 Htrue Hv j Hj) as (ws & o & d & H1 & H2 & H3 & _).
+    exists ws, o, d. auto.
+Qed.
+
+(* QUICFlightFrames never panics when its PADDING lengths are non-negative *)
+Lemma build_abs_nopanic full qfs : pads_ok qfs -> build_abs full qfs <> Panic.
+Proof.
+  unfold build_abs. induction qfs as [|f r IH]; intros Hp; [discriminate|].
+  inversion Hp as [|? ? Hf Hr]; subst. cbn [map_res].
+  assert (Hone : abs_one full f <> Panic).
+  { destruct f as [|k|o l]; cbn [abs_one]; [discriminate| |].
+    - destruct (Z.ltb_spec k 0); [lia|discriminate].
+    - pose proof (resolve_total o l (zlen full) (zlen_nonneg full)) as Hres.
+      destruct (resolve o l (zlen full)) as [[s e]|c|]; cbn [bind]; [discriminate|discriminate|contradiction]. }
+  destruct (abs_one full f) as [w|c|]; cbn [bind]; [|discriminate|congruence].
+  specialize (IH Hr). destruct (map_res (abs_one full) r) as [ws|c|]; cbn [bind]; [discriminate|discriminate|congruence].
+Qed.
+
+Lemma flight_frames_nopanic dgs first full : Forall pads_ok dgs -> flight_frames dgs first full <> Panic.
+Proof.
+  intros Hp. unfold flight_frames. destruct dgs as [|d0 r]; [discriminate|]. destruct first.
+  - inversion Hp; subst. pose proof (build_abs_nopanic full d0 ltac:(assumption)) as Hn.
+    destruct (build_abs full d0) as [w|c|]; cbn [bind]; [discriminate|discriminate|congruence].
+  - induction Hp as [|d l Hd _ IH]; cbn [map_res]; [discriminate|].
+    pose proof (build_abs_nopanic full d Hd) as Hn.
+    destruct (build_abs full d) as [w|c|]; cbn [bind]; [|discriminate|congruence].
+    destruct (map_res (build_abs full) l) as [ws|c|]; cbn [bind]; [discriminate|discriminate|congruence].
+Qed.
+
+(* ---------- retransmission until the queue is empty ---------- *)
+(** After ANY history, once the retransmission queue is empty, every byte of the ClientHello the
+    first flight carried is acknowledged or in an outstanding packet — and every outstanding
+    packet the history produced is on the wire exactly (C09_flight_on_wire_complete, part III):
+    retransmission after loss, e.g. on PTO, preserves completeness. *)
+Lemma retx_drained_complete planned layout flight0 n ops st' rs :
+  (forall b, 0 <= b < n -> covers b (flat_map snd flight0)) ->
+  rrun planned layout (RS flight0 [] []) ops = Some (st', rs) ->
+  rQueue st' = [] ->
+  forall b, 0 <= b < n -> covers b (rAcked st') \/ exists pn fs, In (pn, fs) (rOut st') /\ covers b fs.
+Proof.
+  intros Hcov Hrun Hq b Hb. destruct (flight_stays_covered _ _ _ _ _ _ _ Hcov Hrun) as (_ & Hc).
+  specialize (Hc b Hb). unfold all_ranges in Hc. rewrite Hq in Hc. cbn [app] in Hc.
+  apply covers_app in Hc as [Hc|Hc]; [right|left; assumption].
+  destruct Hc as (r & Hin & Hr). apply in_flat_map in Hin as ([pn fs] & Hp & Hin).
+  exists pn, fs. split; [assumption|]. exists r. split; assumption.
+Qed.
+
+(* the plan shape of seeded change C09-e, scaled down: bytes [0,2) sent twice, byte 5 never *)
+Definition pl_hello : list Z := [11; 12; 13; 14; 15; 16; 17; 18; 19; 20].
+Lemma plan_flight_examples :
+  plan_flight (FBFrames [[FCrypto (-3) 0; FCrypto 0 2]; [FCrypto 0 5]; [FCrypto 6 (-3)]]) pl_hello [0] [] [] = Err 105 /\
+  flight_sent (FBFrames [[FCrypto (-3) 0; FCrypto 0 2]; [FCrypto 0 5]; [FCrypto 6 (-3)]]) pl_hello [0] [] [] = [] /\
+  (exists wss, plan_flight (FBFrames [[FCrypto (-3) 0; FCrypto 0 2]; [FCrypto 0 5]; [FCrypto 5 (-3)]]) pl_hello [0] [] [] = Ok (wss, [], [])
+               /\ length wss = 3%nat).
+Proof. split; [vm_compute; reflexivity|]. split; [vm_compute; reflexivity|]. eexists. split; [vm_compute; reflexivity|reflexivity]. Qed.
